@@ -211,7 +211,7 @@ pub fn main(args: &Args) -> i32 {
     }
     for (name, p) in scenarios {
         let plan = SchedPlan {
-            bounds: if quick { vec![Some(4)] } else { vec![Some(6), None] },
+            bounds: if quick { vec![Some(6)] } else { vec![Some(8), None] },
             max_execs: args.tier.pick(2_000_000, 40_000_000),
             time_budget_s: args.tier.pick(120.0, 300.0),
         };
